@@ -54,16 +54,25 @@ func (node *tagIncludeNode) Execute(ctx *ExecutionContext, writer TemplateWriter
 		}
 		err2 = includedTpl.ExecuteWriter(includeCtx, writer)
 		if err2 != nil {
-			return err2.(*Error)
+			return node.wrapError(ctx, err2)
 		}
 		return nil
 	}
 	// Template is already parsed with static filename
 	err := node.tpl.ExecuteWriter(includeCtx, writer)
 	if err != nil {
-		return err.(*Error)
+		return node.wrapError(ctx, err)
 	}
 	return nil
+}
+
+// wrapError turns the error of the nested ExecuteWriter into an *Error. An execution
+// error already is one; an error of the underlying writer is not and gets wrapped.
+func (node *tagIncludeNode) wrapError(ctx *ExecutionContext, err error) *Error {
+	if e, ok := err.(*Error); ok {
+		return e
+	}
+	return ctx.OrigError(err, nil)
 }
 
 type tagIncludeEmptyNode struct{}
